@@ -733,7 +733,8 @@ func parseBinOps(expr string, n *promParser.BinaryExpr) (src []Source) {
 		// foo{} /               bar{}
 	case n.VectorMatching.Card == promParser.CardOneToOne:
 		rhs := walkNode(expr, n.RHS)
-		for _, s = range walkNode(expr, n.LHS) {
+		lhs := walkNode(expr, n.LHS)
+		for _, s = range lhs {
 			operand := s // the left operand as analysed, before its labels are rewritten for the result
 			if n.VectorMatching.On {
 				s.FixedLabels = true
@@ -775,7 +776,7 @@ func parseBinOps(expr string, n *promParser.BinaryExpr) (src []Source) {
 				s.Operation = n.VectorMatching.Card.String()
 			}
 			for _, rs := range rhs {
-				if ok, s, pos := canJoin(operand, rs, n.VectorMatching); !ok {
+				if ok, s, pos := canJoin(operand, rs, n.VectorMatching); !ok && !canJoinAny(lhs, rs, n.VectorMatching) {
 					rs.IsDead = true
 					rs.IsDeadReason = s
 					rs.IsDeadPosition = pos
@@ -792,7 +793,8 @@ func parseBinOps(expr string, n *promParser.BinaryExpr) (src []Source) {
 		// foo{} + ignoring(...) group_right(...) bar{}
 	case n.VectorMatching.Card == promParser.CardOneToMany:
 		lhs := walkNode(expr, n.LHS)
-		for _, s = range walkNode(expr, n.RHS) {
+		rhs := walkNode(expr, n.RHS)
+		for _, s = range rhs {
 			operand := s
 			s = includeLabel(s, n.VectorMatching.Include...)
 			s = unguaranteeCopiedLabels(s, lhs, n.VectorMatching.Include)
@@ -806,7 +808,7 @@ func parseBinOps(expr string, n *promParser.BinaryExpr) (src []Source) {
 				s.Operation = n.VectorMatching.Card.String()
 			}
 			for _, ls := range lhs {
-				if ok, s, pos := canJoin(operand, ls, n.VectorMatching); !ok {
+				if ok, s, pos := canJoin(operand, ls, n.VectorMatching); !ok && !canJoinAny(rhs, ls, n.VectorMatching) {
 					ls.IsDead = true
 					ls.IsDeadReason = s
 					ls.IsDeadPosition = pos
@@ -823,7 +825,8 @@ func parseBinOps(expr string, n *promParser.BinaryExpr) (src []Source) {
 		// foo{} + ignoring(...) group_left(...) bar{}
 	case n.VectorMatching.Card == promParser.CardManyToOne:
 		rhs := walkNode(expr, n.RHS)
-		for _, s = range walkNode(expr, n.LHS) {
+		lhs := walkNode(expr, n.LHS)
+		for _, s = range lhs {
 			operand := s
 			s = includeLabel(s, n.VectorMatching.Include...)
 			s = unguaranteeCopiedLabels(s, rhs, n.VectorMatching.Include)
@@ -834,7 +837,7 @@ func parseBinOps(expr string, n *promParser.BinaryExpr) (src []Source) {
 				s.Operation = n.VectorMatching.Card.String()
 			}
 			for _, rs := range rhs {
-				if ok, s, pos := canJoin(operand, rs, n.VectorMatching); !ok {
+				if ok, s, pos := canJoin(operand, rs, n.VectorMatching); !ok && !canJoinAny(lhs, rs, n.VectorMatching) {
 					rs.IsDead = true
 					rs.IsDeadReason = s
 					rs.IsDeadPosition = pos
@@ -853,7 +856,8 @@ func parseBinOps(expr string, n *promParser.BinaryExpr) (src []Source) {
 	case n.VectorMatching.Card == promParser.CardManyToMany:
 		var lhsCanBeEmpty bool // true if any of the LHS query can produce empty results.
 		rhs := walkNode(expr, n.RHS)
-		for _, s = range walkNode(expr, n.LHS) {
+		lhs := walkNode(expr, n.LHS)
+		for _, s = range lhs {
 			var rhsConditional bool
 			operand := s
 			if n.VectorMatching.On {
@@ -870,7 +874,7 @@ func parseBinOps(expr string, n *promParser.BinaryExpr) (src []Source) {
 				if isConditional {
 					rhsConditional = true
 				}
-				if ok, s, pos := canJoin(operand, rs, n.VectorMatching); !ok {
+				if ok, s, pos := canJoin(operand, rs, n.VectorMatching); !ok && !canJoinAny(lhs, rs, n.VectorMatching) {
 					rs.IsDead = true
 					rs.IsDeadReason = s
 					rs.IsDeadPosition = pos
@@ -945,6 +949,17 @@ func checkConditions(s Source, op promParser.ItemType, isBool bool) (isCondition
 		isConditional = op.IsComparisonOperator()
 	}
 	return isConditional, isReturnBool
+}
+
+// canJoinAny reports whether rs can be matched with at least one of the alternative sources of the other operand:
+// `(foo or bar) and baz` matches baz against the series of foo and of bar.
+func canJoinAny(srcs []Source, rs Source, vm *promParser.VectorMatching) bool {
+	for _, ls := range srcs {
+		if ok, _, _ := canJoin(ls, rs, vm); ok {
+			return true
+		}
+	}
+	return false
 }
 
 func canJoin(ls, rs Source, vm *promParser.VectorMatching) (bool, string, posrange.PositionRange) {
